@@ -3,6 +3,7 @@
 package main
 
 import (
+	"strconv"
 	"crypto/aes"
 	"crypto/cipher"
 	"crypto/hmac"
@@ -283,6 +284,12 @@ func driveC03(t *testing.T, out *vEmitter) {
 			i     int
 		}{{"value0", 0}, {"valueMid", p1 / 2}, {"ts", p1 + 2}, {"sig0", p2 + 1}, {"sigMid", p2 + 20}} {
 			sets = append(sets, cs{"A1-tampered-" + pos.label, []*http.Cookie{{Name: logins[0].cookie.Name, Value: vFlip(v, pos.i)}}})
+		}
+		if ts, err := strconv.ParseInt(v[p1+1:p2], 10, 64); err == nil {
+			// only the plain-text timestamp edited, staying inside the validity window
+			for _, d := range []int64{-60, -1, 1} {
+				sets = append(sets, cs{fmt.Sprintf("A1-ts%+d", d), []*http.Cookie{{Name: logins[0].cookie.Name, Value: v[:p1+1] + strconv.FormatInt(ts+d, 10) + v[p2:]}}})
+			}
 		}
 		sets = append(sets,
 			cs{"A1-truncated", []*http.Cookie{{Name: logins[0].cookie.Name, Value: v[:len(v)-5]}}},
